@@ -492,7 +492,25 @@ def sample_slot(rng, depth):
     return sample_value(rng, depth + 1)
 
 
-def search(con, fn, n, seed, want_fail=True):
+def _in_known_case(con, argdescs, cases):
+    if not cases:
+        return False
+    names = ordered_args(con, None)
+    try:
+        vals_ = dict((nm, build(argdescs[nm])) for nm in names)
+    except Exception:
+        return False
+    g = dict(sys.modules[con.__module__].__dict__)
+    for c in cases:
+        try:
+            if bool(eval(c, g, dict(vals_))):
+                return True
+        except Exception:
+            continue
+    return False
+
+
+def search(con, fn, n, seed, want_fail=True, known_cases=None):
     """Bounded search: sample inputs, keep those satisfying requires, compare
     the real function with the oracle.  Returns stats and the first mismatch."""
     rng = random.Random(seed)
@@ -502,6 +520,7 @@ def search(con, fn, n, seed, want_fail=True):
     mismatch = None
     oracle_errors = 0
     gen_errors = 0
+    known_hits = 0
     distinct = set()
     tries_cap = n * 400
     while accepted < n and tried < tries_cap:
@@ -527,10 +546,15 @@ def search(con, fn, n, seed, want_fail=True):
                 mismatch = res
             continue
         if res.get('agree') is False and mismatch is None:
+            if _in_known_case(con, argdescs, known_cases):
+                # a listed known finding: counted, and the search goes on so that a
+                # different violation of the same property is still found
+                known_hits += 1
+                continue
             mismatch = res
             if want_fail:
                 break
-    return {'tried': tried, 'accepted': accepted, 'distinct': len(distinct),
+    return {'tried': tried, 'accepted': accepted, 'distinct': len(distinct), 'known_hits': known_hits,
             'oracle_errors': oracle_errors, 'gen_errors': gen_errors, 'mismatch': mismatch}
 
 
@@ -616,7 +640,7 @@ def main(argv):
     if req['mode'] == 'replay':
         out = run_case(con, fn, req['args'])
     elif req['mode'] == 'search':
-        out = search(con, fn, req.get('n', 200), req.get('seed', 0))
+        out = search(con, fn, req.get('n', 200), req.get('seed', 0), known_cases=req.get('known_cases'))
         try:
             if getattr(fn, '__pyvc_ast__', None) is not None:
                 out['source'] = {'file': fn.__code__.co_filename, 'lines': list(fn.__pyvc_lines__),
